@@ -194,6 +194,13 @@ class Prop(common.PropertyCheck):
         except Exception as e:
             return {'err': 'get_transform_fxn:' + type(e).__name__ + ':' + str(e)[:80]}
         tf, curves = res.transform_fxn, res.fitting['std_crv']
+        # the caller goes on using (and changing) its own list of channels and table of values: the calibration must not follow
+        own_channels = list(mef_channels)
+        if case['seed'] % 2:
+            mef_channels.reverse()
+            mef_channels.append('FSC')
+            mef_values[0][0] = -1.0
+        mef_channels = own_channels
         sample = beads[:30]
         lay = case['layout']
         if lay == 'swapped':
